@@ -64,6 +64,11 @@ ASSUMPTIONS = [
     "mechanism, in addition to encode()/decode()",
 ]
 
+# ~70 CPU-seconds of work in the quick tier (10-12 s wall on 8 idle cores);
+# the budgets only guard against a heavily loaded machine
+QUICK_BUDGET_S = 240
+THOROUGH_BUDGET_S = 2400
+
 _RT_TOL = 1e-11       # x kappa x max|x|
 _EN_TOL = 1e-12       # relative
 _FILT_TOL = 1e-11     # x kappa (ZF) or x cond(H^H H + s2 I) (MMSE)
@@ -328,10 +333,10 @@ def _enum_shapes(tier):
 PARTS = [
     Part("shapes", enumerate=_enum_shapes, exhaustive=True, quick_shards=2,
          thorough_shards=2),
-    Part("roundtrip", _roundtrip_cases, quick=6000, thorough=300000,
-         quick_shards=6),
-    Part("filters", _filter_cases, quick=2500, thorough=120000,
-         quick_shards=2),
+    Part("roundtrip", _roundtrip_cases, quick=6000, thorough=160000,
+         quick_shards=6, thorough_shards=24),
+    Part("filters", _filter_cases, quick=2500, thorough=60000,
+         quick_shards=2, thorough_shards=8),
 ]
 
 
